@@ -43,15 +43,15 @@ fn get_request_addr(stream: &mut TcpStream) -> (r: anyhow::Result<Address>)
                         forall|j: int| 4 <= j < head@.len() ==> !#[trigger] ends_head(in0, j),
                     decreases 8192 - head@.len(),
                 {
+                    if head.len() >= 8192 {
+                        return Err(verif_err());
+                    }
                     proof {
                         let n = head@.len() as int;
                         assert(!crlf2().is_suffix_of(head@));
                         if n >= 4 { assert(in0.subrange(n - 4, n) =~= head@.subrange(n - 4, n)); }
                     }
                     let ghost ib = stream.inbox();
-                    if head.len() >= 8192 {
-                        return Err(verif_err());
-                    }
                     if stream.read(&mut byte)? == 0 {
                         return Err(verif_err());
                     }
